@@ -435,12 +435,12 @@ End Transparent.
 (* main(depth 1) calls f(depth 2) calls g(depth 3); g contains a breakpoint (statement 8).
    Commands: continue at the first stop, then step at every callback. *)
 Definition wit_trace : list stmt :=
-  [mkStmt 1 153 false true; mkStmt 1 173 false false; mkStmt 1 182 false false;
-   mkStmt 2 70 false true; mkStmt 2 91 false false; mkStmt 2 101 false false;
-   mkStmt 3 1 false true; mkStmt 3 22 false false; mkStmt 3 35 true false; mkStmt 3 44 false false;
-   mkStmt 3 64 false false; mkStmt 3 0 false false;
-   mkStmt 2 112 false false; mkStmt 2 122 false false; mkStmt 2 132 false false; mkStmt 2 149 false false; mkStmt 2 0 false false;
-   mkStmt 1 193 false false; mkStmt 1 202 false false; mkStmt 1 218 false false; mkStmt 1 0 false false].
+  [mkStmt 1 153 false true false; mkStmt 1 173 false false false; mkStmt 1 182 false false false;
+   mkStmt 2 70 false true false; mkStmt 2 91 false false false; mkStmt 2 101 false false false;
+   mkStmt 3 1 false true false; mkStmt 3 22 false false false; mkStmt 3 35 true false false; mkStmt 3 44 false false false;
+   mkStmt 3 64 false false false; mkStmt 3 0 false false false;
+   mkStmt 2 112 false false false; mkStmt 2 122 false false false; mkStmt 2 132 false false false; mkStmt 2 149 false false false; mkStmt 2 0 false false false;
+   mkStmt 1 193 false false false; mkStmt 1 202 false false false; mkStmt 1 218 false false false; mkStmt 1 0 false false false].
 Definition wit_cmds : list cmd := Continue :: repeat Step 30.
 
 Lemma wit_stops : stops wit_trace wit_cmds = [(0, false); (8, true); (9, false); (10, false); (11, false)].
